@@ -216,6 +216,8 @@ CHECKS["C07"] = dict(
     parts=[
         P("enum", "det", "TestC07Enum", dict(checks=1, shards=8, split=False, timeout=900), dict(checks=1, shards=16, split=False, timeout=3000), rapid=False, rewrite=_E4_DIRS),
         P("rand", "det", "TestC07Rand", dict(checks=320, shards=8, timeout=900), dict(checks=50000, shards=16, timeout=3400), rewrite=_E4_DIRS),
+        P("lenum", "det", "TestC07LightEnum", dict(checks=1, shards=16, split=False, timeout=900, env={"VERIF_LIGHT_BOUND": "2", "VERIF_LIGHT_MAXSTEPS": "0"}), dict(checks=1, shards=16, split=False, timeout=3400, env={"VERIF_LIGHT_BOUND": "2", "VERIF_LIGHT_MAXSTEPS": "400"}), rapid=False, rewrite=_E4_DIRS),
+        P("lrand", "det", "TestC07LightRand", dict(checks=4000, shards=8, timeout=900), dict(checks=400000, shards=16, timeout=3400), rewrite=_E4_DIRS),
     ],
 )
 
@@ -228,6 +230,8 @@ CHECKS["C08"] = dict(
     parts=[
         P("enum", "det", "TestC08Enum", dict(checks=1, shards=8, split=False, timeout=900), dict(checks=1, shards=16, split=False, timeout=3000), rapid=False, rewrite=_E4_DIRS),
         P("rand", "det", "TestC08Rand", dict(checks=320, shards=8, timeout=900), dict(checks=50000, shards=16, timeout=3400), rewrite=_E4_DIRS),
+        P("lenum", "det", "TestC08LightEnum", dict(checks=1, shards=16, split=False, timeout=900, env={"VERIF_LIGHT_BOUND": "2", "VERIF_LIGHT_MAXSTEPS": "0"}), dict(checks=1, shards=16, split=False, timeout=3400, env={"VERIF_LIGHT_BOUND": "2", "VERIF_LIGHT_MAXSTEPS": "400"}), rapid=False, rewrite=_E4_DIRS),
+        P("lrand", "det", "TestC08LightRand", dict(checks=4000, shards=8, timeout=900), dict(checks=400000, shards=16, timeout=3400), rewrite=_E4_DIRS),
     ],
 )
 
@@ -275,5 +279,7 @@ CHECKS["C06"] = dict(
     parts=[
         P("enum", "det", "TestC06Enum", dict(checks=1, shards=8, split=False, timeout=900), dict(checks=1, shards=16, split=False, timeout=3000), rapid=False, rewrite=_E4_DIRS),
         P("rand", "det", "TestC06Rand", dict(checks=400, shards=8, timeout=900), dict(checks=40000, shards=16, timeout=3400), rewrite=_E4_DIRS),
+        P("lenum", "det", "TestC06LightEnum", dict(checks=1, shards=16, split=False, timeout=900, env={"VERIF_LIGHT_BOUND": "2", "VERIF_LIGHT_MAXSTEPS": "0"}), dict(checks=1, shards=16, split=False, timeout=3400, env={"VERIF_LIGHT_BOUND": "2", "VERIF_LIGHT_MAXSTEPS": "400"}), rapid=False, rewrite=_E4_DIRS),
+        P("lrand", "det", "TestC06LightRand", dict(checks=4000, shards=8, timeout=900), dict(checks=400000, shards=16, timeout=3400), rewrite=_E4_DIRS),
     ],
 )
